@@ -129,10 +129,12 @@ def directed_histories(tier: str):
             hists.append([single("A", 1), {"k": "claim", "src": 2, "name": n1}, single("A", 2), {"k": "window"}, single("A", 1),
                           {"k": "claim", "src": 1, "name": n2}, single("B", 1), single("A", 2)])
     cfgs = []
-    for mm, mf in (("none", []), ("exclude", ["m1"]), ("exclude", ["m2"]), ("include", ["m1"]), ("include", ["m2"])):
+    for mm, mf, mi in (("none", [], []), ("exclude", ["m1"], []), ("exclude", ["m2"], []), ("include", ["m1"], []), ("include", ["m2"], []),
+                       # both lists at once: a manufacturer on both, on one of them only, on none
+                       ("both", ["m1"], ["m1", "m2"]), ("both", ["m1", "m2"], ["m2"]), ("both", ["m2"], ["m1"]), ("both", ["m1"], [])):
         for nm in (False, True):
             for mode, nums in (("none", []), ("exclude", ["CLAIM"])):
-                cfgs.append({"mode": mode, "nums": nums, "ids": [], "mfrMode": mm, "mfrs": mf, "netmap": nm})
+                cfgs.append({"mode": mode, "nums": nums, "ids": [], "mfrMode": mm, "mfrs": mf, "mfrsIn": mi, "netmap": nm})
     if tier == "selftest":
         cfgs = cfgs[::3]
     out = []
